@@ -149,9 +149,12 @@ func (m *specMonitor) onPlaced(c *Ctx, p *genetics.Population, org *genetics.Org
 		}
 		return out
 	}
+	// the library's figure only breaks ties of rounding: where it is not within 1e-9 of the reference formula it is not a
+	// measure of the distance at all and the reference decides alone
+	near := func(d dist) bool { return math.Abs(d.ref-d.lib) <= 1e-9*math.Max(1, math.Abs(d.ref)) }
 	if created {
 		for _, d := range dists {
-			if d.ref < thr && d.lib < thr {
+			if d.ref < thr && (d.lib < thr || !near(d)) {
 				m.stop = true
 				dd := detail()
 				dd["distances"] = refs()
@@ -169,7 +172,7 @@ func (m *specMonitor) onPlaced(c *Ctx, p *genetics.Population, org *genetics.Org
 			m.distinct(c, refs(), thr)
 		}
 	} else {
-		if !(chosen.ref < thr) && !(chosen.lib < thr) {
+		if !(chosen.ref < thr) && !(near(chosen) && chosen.lib < thr) {
 			m.stop = true
 			dd := detail()
 			dd["distances"] = refs()
@@ -177,7 +180,7 @@ func (m *specMonitor) onPlaced(c *Ctx, p *genetics.Population, org *genetics.Org
 			return
 		}
 		for _, d := range dists {
-			if d.ref < chosen.ref && d.lib < chosen.lib {
+			if d.ref < chosen.ref && (d.lib < chosen.lib || !near(d) || !near(chosen)) {
 				m.stop = true
 				dd := detail()
 				dd["distances"] = refs()
